@@ -280,18 +280,29 @@ func installMore(m *Machine) {
 	// 1..3, never with a frame magic). The codecs' internals are outside the claim.
 	zmagic := []byte{0x28, 0xB5, 0x2F, 0xFD}
 	smagic := []byte{0xFF, 0x06, 0x00, 0x00}
-	enc := func(magic []byte) func(r *Run, src, dst []Value) Value {
+	enc := func(magic []byte, inPlace bool) func(r *Run, src, dst []Value) Value {
 		return func(r *Run, src, dst []Value) Value {
 			r.stub("compression codec (opaque pair: Decompress(Compress(x)) = x)")
-			out := append([]Value{}, dst...)
+			// like the real codecs the result is written into the caller's buffer when it is large enough
+			// (zstd: appended to dst; snappy: dst[:n] when len(dst) suffices), so that a caller who reuses a
+			// buffer gets the aliasing the real library would give it
+			payload := append([]Value{}, src...)
+			var out []Value
+			if inPlace {
+				if len(dst) >= len(magic)+len(payload) {
+					out = dst[:0:len(dst)]
+				}
+			} else {
+				out = dst
+			}
 			for _, b := range magic {
 				out = append(out, Num{W: 8, C: uint64(b)})
 			}
-			out = append(out, src...)
+			out = append(out, payload...)
 			return Slice{S: out}
 		}
 	}
-	dec := func(magic []byte) func(r *Run, in, dst []Value) Value {
+	dec := func(magic []byte, inPlace bool) func(r *Run, in, dst []Value) Value {
 		return func(r *Run, in, dst []Value) Value {
 			r.stub("compression codec (opaque pair: Decompress(Compress(x)) = x)")
 			if len(in) < len(magic) {
@@ -302,7 +313,16 @@ func installMore(m *Machine) {
 					return Tuple{Slice{Nil: true}, r.newError("invalid compressed data: bad magic")}
 				}
 			}
-			out := append(append([]Value{}, dst...), in[len(magic):]...)
+			payload := append([]Value{}, in[len(magic):]...)
+			var out []Value
+			if inPlace {
+				if len(dst) >= len(payload) {
+					out = dst[:0:len(dst)]
+				}
+			} else {
+				out = dst
+			}
+			out = append(out, payload...)
 			return Tuple{Slice{S: out}, nilErr()}
 		}
 	}
@@ -312,7 +332,7 @@ func installMore(m *Machine) {
 		}
 		return nil
 	}
-	ze, zd, se, sd := enc(zmagic), dec(zmagic), enc(smagic), dec(smagic)
+	ze, zd, se, sd := enc(zmagic, false), dec(zmagic, false), enc(smagic, true), dec(smagic, true)
 	I["(*github.com/klauspost/compress/zstd.Encoder).EncodeAll"] = func(r *Run, fr *Frame, a []Value) Value { return ze(r, sl(a[1]), sl(a[2])) }
 	I["(*github.com/klauspost/compress/zstd.Decoder).DecodeAll"] = func(r *Run, fr *Frame, a []Value) Value { return zd(r, sl(a[1]), sl(a[2])) }
 	I["(*github.com/klauspost/compress/zstd.Encoder).Close"] = func(r *Run, fr *Frame, a []Value) Value { return nilErr() }
